@@ -89,6 +89,26 @@ class TVal(Ty):
         return CT.Val
 
 
+class TAbs(Ty):
+    """an abstract (uninterpreted) sort of the specification level, e.g. Env - the valuations of the
+    reference semantics; nothing is known about its elements except through opaque spec functions."""
+    _sorts = {}
+
+    def __init__(self, name: str):
+        self.name = name
+
+    def z3sort(self):
+        if self.name not in TAbs._sorts:
+            TAbs._sorts[self.name] = z3.DeclareSort(self.name)
+        return TAbs._sorts[self.name]
+
+    def __repr__(self):
+        return self.name
+
+
+ABSTRACT_SORTS = ('Env',)
+
+
 class TNode(Ty):
     """a value of an attrs class family (AST node or definition record)."""
 
